@@ -67,7 +67,10 @@ def run_c09(ctx):
 
 
 def run_c04(ctx):
-    return l1_both(ctx)
+    import l2
+    res = l1_both(ctx)
+    l2.c04_cli(ctx, res)
+    return res
 
 
 def run_c05(ctx):
@@ -314,7 +317,7 @@ PROPS = {
         "run": run_c04,
         "level": "exploration",
         "design_ref": "DESIGN.md section 4 C04",
-        "level_text": "Boundary-value runtime monitor: the complete matrix field kind x {min-1,min,...,max,max+1,16-bit extremes} x spelling, label distances at and beyond each field limit (and at the 16-bit wrap distances), symbol errors and random programs with one injected out-of-range operand; accept/reject/crash and the emitted image are compared with an independent acceptance predicate + encoder.",
+        "level_text": "Boundary-value runtime monitor: the complete matrix field kind x {min-1,min,...,max,max+1,16-bit extremes} x spelling, label distances at and beyond each field limit (and at the 16-bit wrap distances), symbol errors and random programs with one injected out-of-range operand; accept/reject/crash and the emitted image are compared with an independent acceptance predicate + encoder. At the CLI: exit status and bytes of `lace compile` against the same predicate, and one `lace watch` history (a valid source after an invalid one sharing its labels) against fresh checks.",
         "level_note": "Trusted: refasm.rs predicate. Points the documents leave open (positive spellings >= 32768 in signed fields, negative .orig) are accepted either way.",
         "technique": "runtime monitoring: reference acceptance predicate vs observed Ok/Err/panic of the public assemble path, image cross-check; checked + release builds",
         "rule": "case = one program with an operand at/around a field boundary (or a symbol error, or an injected out-of-range operand) in one spelling; all cases are non-trivial; distinct = hash of program and spelling",
